@@ -94,6 +94,46 @@ impl LibraryRenderer {
     fn outdent(&mut self) {
         self.indents -= 1;
     }
+
+    /// Writes the global variables of a configuration or resource. There
+    /// can be only one block of global variables so all are written in one
+    /// VAR_GLOBAL block.
+    fn write_global_var_decls(&mut self, vars: &[VarDecl]) -> Result<(), Diagnostic> {
+        let first = match vars.first() {
+            Some(first) => first,
+            None => return Ok(()),
+        };
+
+        self.write_ws("VAR_GLOBAL");
+        match first.qualifier {
+            DeclarationQualifier::Unspecified => {}
+            DeclarationQualifier::Constant => self.write_ws("CONSTANT"),
+            DeclarationQualifier::Retain => self.write_ws("RETAIN"),
+            DeclarationQualifier::NonRetain => self.write_ws("NON_RETAIN"),
+        }
+        self.newline();
+
+        self.indent();
+        for var in vars.iter() {
+            match &var.identifier {
+                VariableIdentifier::Symbol(id) => {
+                    self.visit_id(id)?;
+                }
+                VariableIdentifier::Direct(direct) => {
+                    self.visit_direct_variable_identifier(direct)?;
+                }
+            }
+            self.write_ws(":");
+            self.visit_initial_value_assignment_kind(&var.initializer)?;
+            self.write(";");
+            self.newline();
+        }
+        self.outdent();
+
+        self.write_ws("END_VAR");
+        self.newline();
+        Ok(())
+    }
 }
 
 impl Visitor<Diagnostic> for LibraryRenderer {
@@ -1072,9 +1112,7 @@ impl Visitor<Diagnostic> for LibraryRenderer {
 
         self.indent();
         // The global variables come before the tasks and programs
-        for var in node.global_vars.iter() {
-            self.visit_var_decl(var)?;
-        }
+        self.write_global_var_decls(&node.global_vars)?;
 
         for task in node.tasks.iter() {
             self.visit_task_configuration(task)?;
@@ -1134,9 +1172,7 @@ impl Visitor<Diagnostic> for LibraryRenderer {
         self.newline();
 
         self.indent();
-        for var in node.global_var.iter() {
-            self.visit_var_decl(var)?;
-        }
+        self.write_global_var_decls(&node.global_var)?;
         for res in node.resource_decl.iter() {
             self.visit_resource_declaration(res)?;
         }
